@@ -227,13 +227,33 @@ def run_engine(engine, prop, argv=None):
     budget = args.budget
     if budget is None:
         budget = getattr(engine, "BUDGET", {}).get(args.tier)
-    results = run_pool(
-        cases,
-        engine.run_case,
-        nproc=args.nproc,
-        case_timeout=getattr(engine, "CASE_TIMEOUT", 600),
-        wall_budget=budget,
-    )
+    groups = getattr(engine, "GROUPS", None)
+    if not groups:
+        results = run_pool(
+            cases,
+            engine.run_case,
+            nproc=args.nproc,
+            case_timeout=getattr(engine, "CASE_TIMEOUT", 600),
+            wall_budget=budget,
+        )
+    else:
+        # one pool per group; workers of a group run engine.init_group(name) first
+        results = [None] * len(cases)
+        for g in groups:
+            idx = [i for i, c in enumerate(cases) if c.get("group") == g]
+            if not idx:
+                continue
+            share = None if budget is None else budget * len(idx) / float(len(cases))
+            sub = run_pool(
+                [cases[i] for i in idx],
+                engine.run_case,
+                nproc=args.nproc,
+                case_timeout=getattr(engine, "CASE_TIMEOUT", 600),
+                wall_budget=share,
+                init=(lambda g=g: engine.init_group(g)),
+            )
+            for i, r in zip(idx, sub):
+                results[i] = r
 
     harness_errors = []
     viols = []
